@@ -209,3 +209,152 @@ func runC12Alive(mode int) (events []sx.V, fails []c12Fail, bad string) {
 	}
 	return events, fails, bad
 }
+
+const (
+	c12OutageLong  = 11500 * time.Millisecond // longer than reconnectTimeout
+	c12OutageShort = 2 * time.Second
+	c12OutageBound = 8 * time.Second // the loop retries every second
+)
+
+// runC12Outage: the server resets the connection and turns every new one away
+// for the given time, counted from the failed send that starts reconnect();
+// then it is back.  The client has to re-establish the connection by itself and
+// later calls have to succeed, however long the outage was.
+func runC12Outage(long bool) (events []sx.V, fails []c12Fail, bad string) {
+	const D = 300 * time.Millisecond
+	outage := c12OutageShort
+	key := "no-reconnect-after-short-outage"
+	if long {
+		outage, key = c12OutageLong, "no-reconnect-after-long-outage"
+	}
+	fail := func(key, what string) { fails = append(fails, c12Fail{key, what}) }
+	e, err := newC12Env(1, D)
+	if err != nil {
+		return nil, nil, "env: " + err.Error()
+	}
+	defer e.close()
+	l := e.srv.lns[0]
+	t0 := time.Now()
+	var log []c12Timed
+	at := func(v sx.V) { log = append(log, c12Timed{time.Since(t0), v}) }
+	next := 0
+	// one call, answered at once if the server receives it
+	call := func() int {
+		i := next
+		next++
+		c := e.startCall(i, 0)
+		var q c12Query
+		got := false
+		c12Wait(5*time.Second, func() bool {
+			q, got = e.srv.query(c.key)
+			return got || c.returned()
+		})
+		if !got {
+			q, got = e.srv.query(c.key)
+		}
+		d := uint64(i+1)<<11 | 8
+		if got {
+			at(sx.L(sx.A("recv"), sx.Nat(i), sx.Nat(0)))
+			if e.srv.emit(0, c12Answer(q.id, c12Data(d))) == nil {
+				at(sx.L(sx.A("ans"), sx.Nat(0), sx.Nat(i), sx.N(d)))
+			}
+		}
+		if !c.wait(D + c12Hang) {
+			fail("call-hangs", fmt.Sprintf("call %d has not returned", i))
+			bad = "hang"
+			return c12Other
+		}
+		switch c.class() {
+		case c12Ok:
+			if string(c.res) != string(c12Data(d)) {
+				fail("foreign-answer", fmt.Sprintf("call %d returned bytes other than its answer", i))
+				d = 0
+			}
+			at(sx.L(sx.A("ret"), sx.Nat(i), sx.L(sx.A("ok"), sx.N(d))))
+		case c12Timeout:
+			at(sx.L(sx.A("ret"), sx.Nat(i), sx.A("expired")))
+		case c12SendErr:
+			at(sx.L(sx.A("ret"), sx.Nat(i), sx.A("err")))
+		default:
+			fail("unexpected-error", fmt.Sprintf("call %d: %v", i, c.err))
+			bad = "unexpected error"
+		}
+		return c.class()
+	}
+	if call() != c12Ok && bad == "" {
+		return nil, nil, "warm-up call failed"
+	}
+	l.down.Store(true)
+	at(sx.L(sx.A("drop"), sx.Nat(0), sx.Nat(1)))
+	e.srv.drop(0, true)
+	time.Sleep(2 * time.Millisecond)
+	// the failed send that starts reconnect()
+	started := false
+	for n := 0; n < 8 && bad == ""; n++ {
+		if call() == c12SendErr {
+			started = true
+			break
+		}
+	}
+	if bad != "" {
+		return nil, fails, bad
+	}
+	if !started {
+		return nil, nil, "no send failed on the reset connection"
+	}
+	tRec := time.Now()
+	// while the server is away the calls fail fast
+	time.Sleep(outage / 2)
+	if cl := call(); cl != c12SendErr && bad == "" {
+		fail("unexpected-error", fmt.Sprintf("a call during the outage returned class %d instead of a send error", cl))
+	}
+	time.Sleep(time.Until(tRec.Add(outage)))
+	_, g0 := l.current()
+	l.down.Store(false)
+	tBack := time.Now()
+	ok := c12Wait(c12OutageBound, func() bool {
+		_, g := l.current()
+		if g <= g0 {
+			return false
+		}
+		st, answered := c12Status(e.conns[0])
+		return answered && st == liteclient.Connected
+	})
+	if !ok {
+		l.mu.Lock()
+		n := len(l.refusedAt)
+		var last time.Duration
+		if n > 0 {
+			last = l.refusedAt[n-1].Sub(tRec)
+		}
+		l.mu.Unlock()
+		fail(key, fmt.Sprintf("the server was away for %v after the failed send and has been back for %v: the connection is not re-established, IsOK()=%v "+
+			"(the server turned %d attempts away, the last one %v after the failed send)", outage, time.Since(tBack).Round(time.Millisecond), e.cl.IsOK(), n, last.Round(time.Millisecond)))
+	}
+	if !e.cl.IsOK() && ok {
+		fail(key, "IsOK() is false after the connection was re-established")
+	}
+	okc := 0
+	for n := 0; n < 2 && bad == ""; n++ {
+		if call() == c12Ok {
+			okc++
+		}
+	}
+	if ok && okc != 2 {
+		fail("later-call-fails", fmt.Sprintf("%d of 2 calls succeeded after the outage of %v", okc, outage))
+	}
+	l.mu.Lock()
+	for _, t := range l.refusedAt {
+		log = append(log, c12Timed{t.Sub(t0), sx.L(sx.A("dialfail"), sx.Nat(0))})
+	}
+	for _, t := range l.upAt[1:] {
+		log = append(log, c12Timed{t.Sub(t0), sx.L(sx.A("up"), sx.Nat(0))})
+	}
+	l.mu.Unlock()
+	sort.SliceStable(log, func(a, b int) bool { return log[a].t < log[b].t })
+	for _, ev := range log {
+		events = append(events, ev.v)
+	}
+	events = append(events, sx.L(sx.A("reg"), sx.Nat(e.cl.VerifRegistrySize())))
+	return events, fails, bad
+}
